@@ -28,11 +28,16 @@ def container_opts(container):
 
 CONTENT_KINDS = ("obs", "crash", "walker")
 
-ERR_ST = re.compile(r"\bst=(2|3|6|7|8|rej)\b")
+ERR_ST = re.compile(r"\bst=(2|3|4|6|7|8|rej)\b")
 
 
 def rel_content(container, d):
     return d.layer == "L3" or d.kind in CONTENT_KINDS
+
+
+def rel_pool(container, d):
+    """C12/C13: content plus "reset and destroy release every page exactly once" (ledger errors, leaks)"""
+    return d.layer == "L3" or d.kind in CONTENT_KINDS + ("ledger", "leak")
 
 
 def rel_c06(container, d):
@@ -49,7 +54,7 @@ def rel_c06(container, d):
 def rel_c08(container, d):
     if d.layer == "L3":
         return True
-    return d.kind in ("refusal-swallowed", "spurious-alloc-error", "leak", "ledger", "obs", "crash")
+    return d.kind in ("refusal-swallowed", "spurious-alloc-error", "leak", "ledger", "obs", "crash", "walker")
 
 
 def rel_c14(container, d):
@@ -159,13 +164,13 @@ PROPS = {
     ),
     "C12": dict(
         streams=[S("spool", n_quick=1000)],
-        relevant=rel_content,
+        relevant=rel_pool,
         level_text=T("offset model of the static pool refines a block ledger: containment, disjointness, zeroing, exact accounting, single-slot roll-back, reset."),
         level_note=LN,
     ),
     "C13": dict(
         streams=[S("dpool", n_quick=1000)],
-        relevant=rel_content,
+        relevant=rel_pool,
         level_text=T("page-list model of the dynamic pool: blocks in-page and disjoint, fixed pools bounded, expansion leaves older pages untouched, relative alignment in padded mode, reset/destroy release every page once; known finding M6 (absolute alignment above 16)."),
         level_note=LN,
     ),
